@@ -52,6 +52,27 @@ def get_db(kind, hash_filenames):
   return _dbs[key]
 
 
+_other = {}
+
+
+def other_instance(hash_filenames):
+  """A second WhisperDatabase in the same process with another LOCAL_DATA_DIR (two daemons' worth of plugins, a
+  test fixture, a migration tool): its paths lie in ITS directory whatever the first instance resolved before."""
+  if hash_filenames not in _other:
+    b, database, root, data = setup()
+    data2 = os.path.join(b.tmp, 'sandbox-two', 'data')     # (outside the swept sandbox of the first instance)
+    os.makedirs(data2, exist_ok=True)
+    saved = dict(b.settings)
+    b.settings['LOCAL_DATA_DIR'] = data2
+    b.settings['TAG_HASH_FILENAMES'] = hash_filenames
+    try:
+      _other[hash_filenames] = (database.WhisperDatabase(b.settings), os.path.realpath(data2))
+    finally:
+      b.settings.clear()
+      b.settings.update(saved)
+  return _other[hash_filenames]
+
+
 def inside(path, data_real):
   return path.startswith(data_real + os.sep) and path != data_real
 
@@ -80,6 +101,18 @@ def check_name(ctx, name, hash_filenames, kind, create=False, full=False, walk=F
     ctx.fail(sig, '%s backend, TAG_HASH_FILENAMES=%s: metric %r maps to %r (normalised %r) which is not inside the data '
              'directory %r' % (kind, hash_filenames, name, p1, norm, data_real), case, 'confinement')
     return None
+  if kind == 'whisper' and full:
+    db2, data2 = other_instance(hash_filenames)
+    try:
+      q = db2.getFilesystemPath(name)
+    except Exception as e:  # noqa
+      ctx.fail('C14:path-function-raised:%s' % type(e).__name__, 'second instance: getFilesystemPath(%r) raised %r' % (name, e), case)
+      return None
+    nq = os.path.normpath(os.path.join(data2, q))
+    if not (inside(nq, data2) or nq == data2):
+      ctx.fail('C14:escapes-data-dir:whisper', 'a second WhisperDatabase with LOCAL_DATA_DIR %r maps %r to %r, which is not inside '
+               'its data directory (the first instance had resolved the name before)' % (data2, name, q), case, 'confinement')
+      return None
   if create:
     try:
       db.create(name, [(60, 10)], 0.5, 'average')
